@@ -1,8 +1,8 @@
 INIT Init
 NEXT Next
 CONSTANTS
-  MaxN = 3
+  MaxN = 4
   Names = {"a", "b"}
-  MaxDepth = 2
+  MaxDepth = 3
 INVARIANT Emit
 CHECK_DEADLOCK FALSE
